@@ -19,6 +19,10 @@ pub use engine::QueryEngine;
 pub use router::QueryRouter;
 pub use streaming::{QueryFilter, StreamingQuery, StreamingQueryExecutor};
 
+/// Verification hook: direct access to the split-time result de-duplication.
+#[cfg(feature = "verif-hooks")]
+pub use dedup::dedup_batches as verif_dedup_batches;
+
 use crate::compactor::ChunkPinRegistry;
 use crate::ingester::FilteredReceiver;
 use crate::metadata::MetadataClient;
